@@ -22,10 +22,10 @@ func init() {
 		Expect: "terminal-after-self-put", Why: "nil error after the reader went back to the pool"})
 	control(&Control{ID: "ows-semicolon", Rule: "OWS-BEFORE-SEP", File: "larking/negotiate.go",
 		Old: "\t\t\tspec.Q = 1.0\n\t\t\ts = skipSpace(s)\n", New: "\t\t\tspec.Q = 1.0\n", Expect: "head-test:\";\"", Why: "';' tested on unskipped input"})
-	control(&Control{ID: "limitimpl-length-with-error", Rule: "LIMIT-IMPL", File: "larking/codec.go",
-		Old:    "\t\ttotal += int(n)\n\t\tif total > limit {\n\t\t\ttotal = limit\n\t\t}\n\t\tif err != nil || total == limit {\n\t\t\treturn b, total, err\n\t\t}\n",
-		New:    "\t\ttotal += int(n)\n\t\tif err != nil {\n\t\t\treturn b, total, err\n\t\t}\n\t\tif total >= limit {\n\t\t\treturn b, limit, nil\n\t\t}\n",
-		Expect: "limit-before-any-length", Why: "over-read length returned together with the read error"})
+	control(&Control{ID: "limitbound-unclamped-length-with-error", Rule: "LIMIT-RETURN-BOUND", File: "larking/codec.go",
+		Old:    "\t\tif err != nil {\n\t\t\tif total > limit {\n\t\t\t\ttotal = limit\n\t\t\t}\n\t\t\treturn b, total, err\n\t\t}\n",
+		New:    "\t\tif err != nil {\n\t\t\treturn b, total, err\n\t\t}\n",
+		Expect: "(codecHTTPBody).ReadNext/returned-length-bounded", Why: "over-read length returned together with the read error"})
 	control(&Control{ID: "storedslice-kept-by-callee", Rule: "STORED-SLICE-REUSE", File: "larking/rules.go",
 		Old: "\t\t\tv := cursor.addVariable(vars)\n\t\t\tcursor = v.next\n", New: "\t\t\tv := cursor.addVariable(vars)\n\t\t\tcursor = v.next\n\t\t\tvars = append(vars[:0], token{typ: tokenSlash, val: \"/\"})\n\t\t\t_ = vars\n",
 		Expect: "kept-by", Why: "token slice re-used as an append buffer after addVariable kept it"})
